@@ -192,6 +192,19 @@ PROPS["C05"] = dict(
     technique="contract-based deductive verification (Verus on the mechanically extracted real body; loop invariant over the ghost range iterator)",
 )
 
+PROPS["C03"] = dict(
+    level="proof",
+    level_text="PARTIAL (one function of ~200): proof obligations on the extracted real body of SliceFn::type_def that every value the runtime slice() can return (its contract is proved under C28) belongs to the declared type; one obligation FAILS on the tree as given and is recorded as a known finding. No other stdlib function's signature is decided.",
+    text="declared type vs returned value for stdlib slice: SliceFn::type_def extracted and checked by Verus against an element-level model of array types (known indices + unknown) and the runtime contract of slice (sub-array [s, e))",
+    verus=["v_slice_type"],
+    kani=[],
+    trusted=["verus prelude slicetypes.rs: an array type = top-level members + kind of each known index + kind of the other indices, element kinds compared at their top-level tag; TypeDef::union/or_array/or_bytes/is_array/is_bytes contracts (Kind algebra; its scalar fragment is decided under C19)",
+             "the runtime behaviour of slice is the contract proved under C28 (sub-sequence [s, e) of the argument)"],
+    not_covered=["every stdlib function other than slice (~200 type_def implementations, parameter kind checks, return_kind bitmasks): NOT decided",
+                 "merge(deep: true) is documented in the source as unsound (TODO in MergeFn::type_def, upstream issue 13597): nested object kinds are not modelled, no unit decides it"],
+    technique="contract-based deductive verification (Verus on the mechanically extracted real body)",
+)
+
 PROPS["C17"] = dict(
     level="proof",
     text="target faults are contained: every vrl call site of the embedder's Target (Query::resolve, assignment Target::insert, del, exists, unnest, Runtime::resolve) verified by Verus on the extracted real body against a target whose every answer (value, nothing, fault) is arbitrary",
@@ -237,17 +250,22 @@ PROPS["C04"] = dict(
 
 PROPS["C19"] = dict(
     level="proof",
-    text="type abstraction, scalar fragment (complete: all 2^8 x 2^8 pairs of scalar kinds, loop-free): union/merge contain every member of both operands, the subtype test agrees with membership, the kind of a scalar value is exactly its kind",
+    text="type abstraction. Scalar fragment (Kani, complete: all 2^8 x 2^8 pairs of scalar kinds, loop-free): union/merge contain every member of both operands, the subtype test agrees with membership, the kind of a scalar value is exactly its kind. "
+         "Kind-level merging of collection kinds (Verus on the extracted real bodies of Kind::merge_primitives, merge_objects, merge_keep, union): under the union strategy the merged kind admits every scalar member, every object and every array either operand admits, given that law for Collection::merge",
     kani=["k_kind_union_scalar", "k_kind_superset_scalar", "k_kind_of_scalar_value"],
-    trusted=[],
-    not_covered=["collection kinds (known fields/indices, unknown): at_path / insert / remove / merge over BTreeMap-backed Collection - symbolic collection kinds are out of CBMC's reach here (rule 1) and BTreeMap iteration is outside Verus' subset",
+    verus=["v_kind_merge"],
+    bounded_native=[dict(unit="kind_union", bound="17 object/array/scalar kinds (empty, exact, any, nested one level, mixed with null) pairwise x 14 values",
+                         functions=["Kind::union -> Collection::merge -> Unknown::merge, Kind::is_superset, Kind::from(&Value)"],
+                         text="Collection::merge itself (BTreeMap walk, unknown handling) is only assumed by the Verus unit: on the stated domain a value of either operand's kind belongs to the union and the union is a superset of both operands")],
+    trusted=["verus prelude kindmerge.rs: collections are abstract; Collection::merge under the union strategy is ASSUMED to admit every value either operand admits (checked only on the bounded domain kind_union); Option::or by definition; Kind::clone is the identity"],
+    not_covered=["Collection::merge / Unknown::merge internals, and the type-level path operations at_path / insert / remove over BTreeMap-backed collections: symbolic collection kinds are out of CBMC's reach here (rule 1) and BTreeMap iteration is outside Verus' subset",
                  "so the path-operation clauses of C19 (get/insert/remove on types) are NOT decided by this check"],
 )
 
 PROPS["C12"] = dict(
     level="proof",
-    text="compile-time constants vs runtime values, the pieces that are per-function contracts (Verus on extracted real bodies): Details::merge keeps a constant only if both sides agree; Variable::resolve_constant is the binding's constant; Target::insert_type_def records the rhs constant only for whole-variable assignments and changes no other variable; DelFn::type_info drops the constant of a variable it deletes from; Op::resolve_constant folds + - * / with exactly the helper Op::resolve calls at runtime",
-    verus=["v_constants", "v_op_constant", "v_assign_types"],
+    text="compile-time constants vs runtime values, the pieces that are per-function contracts (Verus on extracted real bodies): Details::merge keeps a constant only if both sides agree; Variable::resolve_constant is the binding's constant; Target::insert_type_def records the rhs constant only for whole-variable assignments and changes no other variable; DelFn::type_info drops the constant of a variable it deletes from; Op::resolve_constant folds + - * / with exactly the helper Op::resolve calls at runtime; Op::type_info consults operand constants in the state the operand runs in (divisor after the left operand's effects)",
+    verus=["v_constants", "v_op_constant", "v_assign_types", "v_op_types"],
     kani=[],
     trusted=["verus prelude typestate.rs: LocalEnv bindings as a ghost map (HashMap get/insert contracts), TypeDef/Kind opaque", "child contracts: Expr::resolve_constant = uninterpreted spec_const; arithmetic helpers are deterministic functions (spec_try_*), their values are decided under C10/C11",
              "the store-agreement invariant (every recorded constant equals the runtime variable) and its preservation by all other nodes is the paper induction of DESIGN section 2; only the listed nodes are machine-checked"],
@@ -284,6 +302,9 @@ PROPS["C01"] = dict(
     level_text="PARTIAL: proof (Verus on the extracted real bodies) that the typing rules of binary operators, if/else and `!` are sound w.r.t. the runtime helpers' kind table: every value the runtime can produce for operands of the operand kinds belongs to the reported kind. Does not decide type soundness of whole programs.",
     text="type soundness, operator/control-flow core: Op::type_info, IfStatement::type_info, Not::type_info against the kind table of the runtime helpers",
     verus=["v_op_types", "v_control_types", "v_block_types", "v_assign_types", "v_constants"],
+    bounded_native=[dict(unit="op_typing", bound="12 operators x 31 x 31 operand kind sets over {string, integer, float, boolean, null} x representative values, plus 10 scripted programs whose operands reassign variables or whose branches assign different constants",
+                         functions=["whole pipeline: compile (type_info of Op/If/Block/Assignment, LocalEnv::merge) then Runtime::resolve"],
+                         text="programs accepted without error handling run without error and their result lies in the reported kind, on the stated domain")],
     kani=["k_optable_add", "k_optable_sub", "k_optable_mul", "k_optable_lt"],
     kani_quick=[],
     trusted=TY_TRUSTED, not_covered=TY_NOT_COVERED,
@@ -294,6 +315,9 @@ PROPS["C02"] = dict(
     level_text="PARTIAL: proof (Verus on the extracted real bodies) that binary operators, if/else and `!` are typed infallible only when the runtime helper cannot fail on any operands of the operand kinds (the documented NaN case excepted; `/` only with a constant non-zero integer or normal float divisor). Does not decide infallibility of whole programs.",
     text="infallible-never-fails, operator/control-flow core: fallibility component of Op::type_info, IfStatement::type_info, Not::type_info",
     verus=["v_op_types", "v_control_types", "v_block_types"],
+    bounded_native=[dict(unit="op_typing", bound="12 operators x 31 x 31 operand kind sets over {string, integer, float, boolean, null} x representative values, plus 10 scripted programs whose operands reassign variables or whose branches assign different constants",
+                         functions=["whole pipeline: compile (type_info of Op/If/Block/Assignment, LocalEnv::merge) then Runtime::resolve"],
+                         text="programs accepted without error handling run without error and their result lies in the reported kind, on the stated domain")],
     kani=["k_optable_add", "k_optable_sub", "k_optable_mul", "k_optable_lt"],
     kani_quick=[],
     trusted=TY_TRUSTED, not_covered=TY_NOT_COVERED + ["the runtime half (errors only arise where a node is typed fallible, abort/return routing) is C06-C09/C17"],
